@@ -196,7 +196,7 @@ func c13Sorted(c *Ctx, p *Prog, rels []string) {
 			k := fnName(fn) + ":constructs Sample"
 			sorted := false
 			eachInstr(fn, func(_ *ssa.BasicBlock, in2 ssa.Instruction) {
-				if cc, ok := callIs(in2, "sort", "", "Float64s"); ok && sameValue(cc.Args[0], vs.Val) && instrDominates(in2, vs) {
+				if cc, ok := ascendingSortCall(in2); ok && sameValue(cc.Args[0], vs.Val) && instrDominates(in2, vs) {
 					sorted = true
 				}
 			})
